@@ -297,6 +297,7 @@ fn c03_line_starts_at_the_root() {
     let tt = TranspositionTableAccess { tables: Vec::new() };
     let max_depth: usize = kani::any();
     let r = tt.iter_moves(&hasher, &state, max_depth).next();
+    let reported = r.is_some();
     let stored = stored_entry();
     unsafe {
         assert!(FLAGS[1], "index 0 never exceeds the depth limit: the table is asked");
@@ -312,7 +313,7 @@ fn c03_line_starts_at_the_root() {
             Err(_) => assert!(r.is_none()),
         },
     }
-    kani::cover!(r.is_some(), "a first move is reported");
+    kani::cover!(reported, "a first move is reported");
 }
 
 fn same_position(a: &State, b: &State) -> bool {
